@@ -357,6 +357,10 @@ def check_observed(ctx, spec, obj, tol, where):
         ep = np.asarray(obj.get_endpoints().proj_data)
         ctx.close("get_endpoints() returns the current endpoints (%s)" % where, ep, P, rtol=0,
                   atol=0)
+        # the same ideal endpoints asked for in the projective model (homogeneous rows)
+        gp = np.real(np.asarray(obj.ideal_endpoint_coords("projective"))).astype(float)
+        ctx.small("ideal_endpoint_coords('projective') are the ideal points of the current "
+                  "line (%s)" % where, unordered_pair_dist(gp, w) / amp_, max(tol, 1e-7) * 30)
     elif spec.name == "tangent":
         # the accessors: .point is the basepoint, .vector the *projected* vector (tangent at
         # the basepoint), a positive multiple of the projection of the primary vector
